@@ -4,16 +4,17 @@
 # and the repository's own suite still passes with the patch.  Prints one JSON line.
 set -u
 seed="$1"; dest="$2"; shift 3
-wt=/tmp/wt-confirm
+wt=${CONFIRM_WT:-/tmp/wt-confirm}
+tag=$(basename "$wt")
 export CARGO_NET_OFFLINE=true
 head=$(git -C /repo rev-parse HEAD)
 if [ ! -d "$wt" ]; then git -C /repo worktree add -q --detach "$wt" "$head" || exit 2; fi
 git -C "$wt" checkout -q --detach "$head" && git -C "$wt" checkout -q -- . && git -C "$wt" clean -qfd -e target
 cp "$seed/demo.rs" "$wt/$dest" || exit 2
 cd "$wt"
-cargo test --offline "$@" >/tmp/confirm.nopatch.log 2>&1; without=$?
+cargo test --offline "$@" >/tmp/confirm.$tag.nopatch.log 2>&1; without=$?
 git apply "$seed/patch.diff" || { echo '{"error":"patch does not apply"}'; exit 2; }
-cargo test --offline "$@" >/tmp/confirm.patch.log 2>&1; with=$?
+cargo test --offline "$@" >/tmp/confirm.$tag.patch.log 2>&1; with=$?
 rm -f "$wt/$dest"
 suite=$(cargo test --workspace --no-fail-fast --offline 2>&1)
 passed=$(echo "$suite" | grep -cE "^test .* \.\.\. ok$")
